@@ -398,6 +398,10 @@ func (g *sgen) field(n *gnode, scope string, pef gEF, name string, num int, isEx
 		x.HJ, x.JSON = true, g.pick("customName", "json_"+name, "X")
 	}
 	x.Dep = g.p(1, 10)
+	// `type` omitted, as per-file parsers write message and enum fields: the kind follows from type_name
+	if (x.Type == 11 || x.Type == 14) && g.p(1, 5) {
+		x.Type = 0
+	}
 	return x
 }
 
@@ -426,6 +430,21 @@ func (g *sgen) fields(n *gnode) {
 			n.children = append(n.children, gn)
 			g.all = append(g.all, gn)
 			n.m.Fields = append(n.m.Fields, AField{Name: strings.ToLower(gn.m.Name), Num: num, Label: []int{1, 3, 2}[r.IntN(3)], Type: 10, TName: "." + gn.full})
+			inOneof = 0
+		case c == 0 && f.Syntax == "editions": // group-like: a DELIMITED message field named after its nested message type
+			g.seq++
+			gn := &gnode{m: AMsg{Name: fmt.Sprintf("Grp%d", g.seq), Fields: []AField{{Name: "a", Num: 1, Label: 1, Type: 5}}, Oneofs: []AOneof{}, RR: [][2]int{}, RN: []string{}, XR: [][2]int{}}, parent: n}
+			gn.full, gn.ef = join(n.full, gn.m.Name), n.ef
+			n.children = append(n.children, gn)
+			g.all = append(g.all, gn)
+			x := AField{Name: strings.ToLower(gn.m.Name), Num: num, Label: []int{1, 3}[r.IntN(2)], Type: 11, TName: "." + gn.full}
+			if !n.ef.delim || g.p(1, 2) {
+				x.Feat.Me = "DELIMITED"
+			}
+			if g.p(1, 4) {
+				x.Type = 0
+			}
+			n.m.Fields = append(n.m.Fields, x)
 			inOneof = 0
 		case c == 1: // map
 			mname := fmt.Sprintf("map_f%d", num)
@@ -488,6 +507,26 @@ func (g *sgen) fields(n *gnode) {
 		if n.m.Fields[i].Oneof == -1 {
 			n.m.Oneofs = append(n.m.Oneofs, AOneof{Name: "_" + n.m.Fields[i].Name})
 			n.m.Fields[i].Oneof = len(n.m.Oneofs)
+		}
+	}
+	// the lower-cased JSON name of a group-like field is an alias for it: give some of them an explicit json_name whose
+	// lower-casing is another field's exact JSON name (declared before or after it) -- the alias must not shadow that field
+	for i := range n.m.Fields {
+		x := &n.m.Fields[i]
+		glike := (x.Type == 10 || x.Type == 11 || x.Type == 0) && strings.HasPrefix(x.Name, "grp") && !x.HJ
+		if !glike || len(n.m.Fields) < 2 || !g.p(1, 2) {
+			continue
+		}
+		k := r.IntN(len(n.m.Fields))
+		if k == i || n.m.Fields[k].HJ {
+			continue
+		}
+		o := &n.m.Fields[k]
+		if jn := jsonCamel(o.Name); jn == strings.ToLower(jn) && jn != strings.ToUpper(jn) && g.p(1, 2) {
+			x.HJ, x.JSON = true, strings.ToUpper(jn) // against the other field's name-derived JSON name
+		} else {
+			x.HJ, x.JSON = true, fmt.Sprintf("AKA%d", x.Num)
+			o.HJ, o.JSON = true, fmt.Sprintf("aka%d", x.Num)
 		}
 	}
 	// a duplicate JSON name is legal for protodesc: keyed lookups must then return the first field
@@ -659,7 +698,7 @@ func (g *sgen) mutField(f *AFile, x *AField, isExt bool) {
 	case 12:
 		x.Lazy = !x.Lazy
 	case 13:
-		x.Type, x.TName = []int{5, 9, 11, 14, 10}[r.IntN(5)], g.pick("", x.TName)
+		x.Type, x.TName = []int{5, 9, 11, 14, 10, 0}[r.IntN(6)], g.pick("", x.TName)
 	}
 }
 
@@ -851,7 +890,7 @@ func wantList(def string) []any {
 	return wl
 }
 
-// genOther: DESC_GEN = schemas | mutants | fuzz | defaults | pair | pairschema
+// genOther: DESC_GEN = schemas | mutants | fuzz | defaults | pair | pairschema | xlate
 func genOther(mode string, r *rand.Rand, n int, emit func(core.Case)) {
 	switch mode {
 	case "schemas":
@@ -890,6 +929,8 @@ func genOther(mode string, r *rand.Rand, n int, emit func(core.Case)) {
 		}
 	case "pair":
 		genPair(r, n, emit)
+	case "xlate":
+		genXlate(r, n, emit)
 	case "pairschema":
 		for k := range pairs() {
 			emit(core.Case{"op": "pairschema", "pair": k, "strict": strictPair(k)})
